@@ -155,7 +155,7 @@ def run_unit(unit, st, tier):
                 break
         if len(seen) > 2 * n:
             # the dihedral group of a record of length n has at most 2n elements: the search would not close
-            st.violation("edge", "more-reachable-states-than-the-dihedral-group", dict(n=n, table_slice=[s, nsl], history=[], op="rc", k=0),
+            st.violation("edge", "more-reachable-states-than-the-dihedral-group", dict(n=n, table_slice=[s, nsl], history=[], op="closure", k=0),
                          "<= %d states" % (2 * n), len(seen))
             st.caps.append("n={}: search stopped at {} states (> 2n)".format(n, len(seen)))
             break
@@ -171,6 +171,9 @@ def run_unit(unit, st, tier):
 def replay(scn, sub, st):
     n = scn["n"]
     s, nsl = scn["table_slice"]
+    if scn["op"] == "closure":
+        run_unit((n, s, nsl), st, "quick")     # the whole search of this graph is the scenario
+        return
     init = c13.initial(n, s, nsl)
     rec = c13.build(init)
     m = obs_of(rec, n)
